@@ -5,7 +5,7 @@ From Coq Require Import ZArith Reals Floats Bool.
 From Flocq Require Import Core BinarySingleNaN PrimFloat.
 From Coquelicot Require Import Complex.
 From PB Require Import Proofs.TwoSumExact Model.Phase2 Proofs.Floor Proofs.DayFrac Proofs.DayFrac3 Proofs.PhaseAdd Proofs.PhaseMore
-  Proofs.DayFracTail Proofs.TwoProduct Proofs.PhaseMul Proofs.PhaseAbs Proofs.PhaseDiv.
+  Proofs.DayFracTail Proofs.TwoProduct Proofs.PhaseMul Proofs.PhaseAbs Proofs.PhaseDiv Model.PhaseOrd Model.PhaseDivmod Proofs.PhaseArgmin Proofs.PhaseDivmodProofs.
 Open Scope R_scope.
 Notation fexp := (FLT_exp (-1074) 53).
 Notation rnd := (round radix2 fexp ZnearestE).
@@ -133,6 +133,24 @@ Theorem C07_abs_branch : forall a : ph,
              RPh {| p_int := d; p_frac := g; p_imag := false |}.
 Proof. exact op_abs_is. Qed.
 
+(* floor_divide / remainder / divmod branch (Model/PhaseDivmod.v: numpy's npy_divmod with exact fmod, the correction Phase
+   from_angles(divisor, factor=q), Phase - Phase, second pass; compared bit for bit with the implementation on every run):
+   both passes build the remainder as rem_of p d q, and for ANY finite quotient q with |q d| <= 2^51 - 3 that remainder is the phase
+   minus q d to within 2^-51 cycles, normalised, with an integer count -- so the pair the branch returns satisfies a = q d + r.
+   V p := exact two-part value of p (PhaseArgmin.V). *)
+Theorem C07_divmod_builds_rem : forall (p : ph) (d q : PrimFloat.float) (rem : ph), op_divmod p d = Some (q, rem) -> rem_of p d q = Some rem.
+Proof. exact divmod_rem. Qed.
+Theorem C07_divmod_identity : forall (p : ph) (d q : PrimFloat.float) (rem : ph) (k : Z),
+  op_divmod p d = Some (q, rem) ->
+  p_imag p = false -> fin (p_int p) -> fin (p_frac p) -> R_of (p_int p) = IZR k -> (Z.abs k <= 2 ^ 51 - 2)%Z ->
+  Rabs (R_of (p_frac p)) <= / 2 + bpow radix2 (-50) ->
+  fin d -> fin q -> (R_of d = 0 \/ bpow radix2 (-60) <= Rabs (R_of d)) -> Rabs (R_of d) <= bpow radix2 52 ->
+  (R_of q = 0 \/ bpow radix2 (-900) <= Rabs (R_of q)) -> Rabs (R_of q) <= bpow radix2 400 ->
+  Rabs (R_of d * R_of q) <= IZR (2 ^ 51 - 3) ->
+  p_imag rem = false /\ fin (p_int rem) /\ fin (p_frac rem) /\ (exists kr : Z, R_of (p_int rem) = IZR kr) /\
+  Rabs (R_of q * R_of d + V rem - V p) <= bpow radix2 (-51) /\ Rabs (R_of (p_frac rem)) <= / 2 + bpow radix2 (-50).
+Proof. exact divmod_identity. Qed.
+
 (* imaginary phases, factors and divisors: the flag / sign rules of from_angles are complex multiplication and division *)
 Theorem C07_imag_factor : forall (a b : bool) (x f : R),
   Cmult (cplx a x) (cplx b f) = cplx (xorb a b) (x * (if b && a then - f else f)).
@@ -153,8 +171,8 @@ Theorem C07_from_angles_flags : forall v1 v2 fv (im imf : bool),
 Proof. exact from_angles_factor_flags. Qed.
 
 (* PARTIAL (not proved here, carried by the bit-exact correspondence + exact-rational monitor on every run):
-   |frac| <= 1/2 exactly at ties, floor-division / remainder / divmod, and the ranges outside the hypotheses above
-   (divisors beyond 2^+-100, quotients beyond 2^47, subnormal phases). *)
+   |frac| <= 1/2 exactly at ties; that the quotient of the divmod branch is the FLOOR (0 <= remainder < divisor) and integral;
+   the ranges outside the hypotheses above (divisors beyond 2^+-100, quotients beyond 2^47, subnormal phases). *)
 
 Print Assumptions C07_two_sum_exact.
 Print Assumptions C07_floor.
@@ -164,6 +182,7 @@ Print Assumptions C07_sub.
 Print Assumptions C07_neg.
 Print Assumptions C07_two_product_exact.
 Print Assumptions C07_mul.
+Print Assumptions C07_divmod_identity.
 Print Assumptions C07_div.
 Print Assumptions C07_abs.
 Print Assumptions C07_div_branch.
